@@ -542,3 +542,50 @@ def connection_context_opens_once_and_always_closes(m, a, b, connect_fails, disc
         assert raised == "mgmt" and [x[0] for x in tr] == ["connect"] and len(ghost("created")) == 1
     else:
         assert [x[0] for x in tr] == ["connect", "disconnect"] and len(ghost("created")) == 1
+
+
+# ------------------------------------------------------------------ which response a request expects (KNX 03_03_07)
+
+from pyvc.api import standin  # noqa: E402
+
+# request service -> the response service the application layer specification pairs it with
+RESPONSE_OF = {
+    "ADCRead": "ADCResponse",
+    "AuthorizeRequest": "AuthorizeResponse",
+    "DeviceDescriptorRead": "DeviceDescriptorResponse",
+    "FilterTableRead": "FilterTableResponse",
+    "FunctionPropertyExtStateRead": "FunctionPropertyExtStateResponse",
+    "FunctionPropertyStateRead": "FunctionPropertyStateResponse",
+    "KeyWrite": "KeyResponse",
+    "LinkRead": "LinkResponse",
+    "MemoryExtendedRead": "MemoryExtendedReadResponse",
+    "MemoryExtendedWrite": "MemoryExtendedWriteResponse",
+    "MemoryRead": "MemoryResponse",
+    "PropertyDescriptionRead": "PropertyDescriptionResponse",
+    "PropertyExtDescriptionRead": "PropertyExtDescriptionResponse",
+    "PropertyExtValueRead": "PropertyExtValueResponse",
+    "PropertyExtValueWriteCon": "PropertyExtValueWriteConRes",
+    "PropertyValueRead": "PropertyValueResponse",
+    "RestartMasterReset": "RestartMasterResetResponse",
+    "RouterMemoryRead": "RouterMemoryResponse",
+    "RouterStatusRead": "RouterStatusResponse",
+    "UserManufacturerInfoRead": "UserManufacturerInfoResponse",
+    "UserMemoryRead": "UserMemoryResponse",
+}
+
+
+def _request_classes(tier):
+    yield ("all",)
+
+
+@standin("C43", cases=_request_classes, kind="enum-native", exhaustive=True, bound="every subclass of APCIRequest in xknx.telegram.apci (21): the response type P2PConnection.request() verifies against (RESPONSE_TYPE) is the response service the KNX application layer pairs with the request - the table is written from the specification, not read from the code - and every request class is in the table")
+def every_request_expects_the_response_the_specification_pairs_it_with(_):
+    import inspect
+
+    import xknx.telegram.apci as apci_mod
+
+    found = {n: c for n, c in inspect.getmembers(apci_mod, inspect.isclass) if issubclass(c, apci_mod.APCIRequest) and c is not apci_mod.APCIRequest and c.__module__ == apci_mod.__name__}
+    assert sorted(found) == sorted(RESPONSE_OF), ("request classes and table differ", sorted(set(found) ^ set(RESPONSE_OF)))
+    for name, cls in found.items():
+        assert cls.RESPONSE_TYPE is getattr(apci_mod, RESPONSE_OF[name]), (name, cls.RESPONSE_TYPE.__name__, RESPONSE_OF[name])
+        assert not issubclass(cls.RESPONSE_TYPE, apci_mod.APCIRequest)
